@@ -44,6 +44,8 @@ pub struct Case {
     /// 0 = SerialSignBus::try_new, 1 = Odk::try_new, 2.. = configure_port with CALLER_TIMEOUTS_MS[c-2]
     ctor: usize,
     fault: Option<(usize, usize)>,
+    /// 0 = every occurrence of the call fails, k = only the k-th
+    occurrence: usize,
 }
 
 fn line_json(l: &Line) -> Value {
@@ -53,17 +55,20 @@ fn line_json(l: &Line) -> Value {
 fn case_json(c: &Case, idx: u64) -> Value {
     json!({"kind": "port", "index": idx, "prior": line_json(&c.line), "prior_timeout_ms": c.prior_timeout_ms,
            "constructor": match c.ctor { 0 => "SerialSignBus::try_new".to_string(), 1 => "Odk::try_new".to_string(), k => format!("configure_port(timeout={}ms)", CALLER_TIMEOUTS_MS[k - 2]) },
-           "fault": c.fault.map(|(call, kind)| format!("{:?} fails with {:?}", CALLS[call], KINDS[kind]))})
+           "fault": c.fault.map(|(call, kind)| format!("{:?} fails with {:?} ({})", CALLS[call], KINDS[kind], if c.occurrence == 0 { "every time".to_string() } else { format!("only call #{}", c.occurrence) }))})
 }
 
 const N_CTOR: u64 = 6;
 const N_FAULT: u64 = 13; // none + 4 calls x 3 kinds
+const N_OCC: u64 = 4; // every occurrence, or only the 1st / 2nd / 3rd
 
 pub fn total_cases() -> u64 {
-    bauds().len() as u64 * 4 * 3 * 2 * 3 * PRIOR_TIMEOUTS_MS.len() as u64 * N_CTOR * N_FAULT
+    bauds().len() as u64 * 4 * 3 * 2 * 3 * PRIOR_TIMEOUTS_MS.len() as u64 * N_CTOR * N_FAULT * N_OCC
 }
 
 pub fn nth_case(mut i: u64) -> Case {
+    let occurrence = (i % N_OCC) as usize;
+    i /= N_OCC;
     let f = i % N_FAULT;
     i /= N_FAULT;
     let ctor = (i % N_CTOR) as usize;
@@ -79,14 +84,15 @@ pub fn nth_case(mut i: u64) -> Case {
     let cs = CHARS[(i % 4) as usize];
     i /= 4;
     let baud = bauds()[i as usize];
-    Case { line: Line { baud, char_size: cs, parity: par, stop_bits: stop, flow }, prior_timeout_ms: pt, ctor, fault: if f == 0 { None } else { Some((((f - 1) / 3) as usize, ((f - 1) % 3) as usize)) } }
+    Case { line: Line { baud, char_size: cs, parity: par, stop_bits: stop, flow }, prior_timeout_ms: pt, ctor, fault: if f == 0 { None } else { Some((((f - 1) / 3) as usize, ((f - 1) % 3) as usize)) }, occurrence }
 }
 
 pub fn check_case(c: &Case) -> (String, Vec<(&'static str, String, String)>) {
     let log = new_log();
     let io = Rc::new(RefCell::new(ScriptIo::new(vec![], log.clone())));
     let fault = c.fault.map(|(call, kind)| (CALLS[call], KINDS[kind]));
-    let port = ScriptPort::new(io, c.line, Duration::from_millis(c.prior_timeout_ms), fault);
+    let mut port = ScriptPort::new(io, c.line, Duration::from_millis(c.prior_timeout_ms), fault);
+    port.fault_occurrence = c.occurrence;
     let line = port.line.clone();
     let timeout = port.timeout.clone();
     let ctor = c.ctor;
@@ -114,7 +120,7 @@ pub fn check_case(c: &Case) -> (String, Vec<(&'static str, String, String)>) {
             outcome = "panic".to_string();
             out.push(("no-panic", p.class(), format!("constructor panicked: {}", p.message)));
         }
-        Ok(res) => match (fault, res) {
+        Ok(res) => match (fault.filter(|_| events.iter().any(|e| matches!(e, Ev::ReadSettings(Err(_)) | Ev::SetBaud(_, Err(_)) | Ev::WriteSettings(_, Err(_)) | Ev::SetTimeout(_, Err(_))))), res) {
             (None, Ok(())) => {
                 outcome = "ok".into();
                 let got = *line.borrow();
@@ -169,7 +175,7 @@ pub fn check_case(c: &Case) -> (String, Vec<(&'static str, String, String)>) {
 pub fn run(ctx: &Ctx) -> Report {
     let mut rep = Report::new(ctx);
     rep.rule = "exhaustive product: 14 prior baud values (11 standard + BaudOther 0/19200/250000) x 4 char sizes x 3 parities x 2 stop bits x 3 flow controls x 3 prior timeouts x \
-                {SerialSignBus::try_new, Odk::try_new, configure_port with 4 caller timeouts} x {no fault, or a failure of read_settings / set_baud_rate / write_settings / set_timeout with 3 error kinds}; \
+                {SerialSignBus::try_new, Odk::try_new, configure_port with 4 caller timeouts} x {no fault, or a failure of read_settings / set_baud_rate / write_settings / set_timeout with 3 error kinds, on every occurrence of that call or only on its 1st / 2nd / 3rd occurrence}; \
                 every case constructs on a scripted SerialDevice that records every configuration call. Non-trivial = all (each runs the real constructor); distinct by construction (product index)"
         .into();
     rep.trusted_base = vec!["devices.rs ScriptPort/ScriptSettings".into(), "serial-core's blanket SerialPort::reconfigure".into()];
